@@ -15,7 +15,9 @@ def fold_sub(v, pid, tier, seed, keep, why):
     import importlib
     import vlib
     sub = vlib.SubVerdict(pid, tier, seed)
-    importlib.import_module("checks." + pid.lower()).run(sub, tier, seed)
+    import os
+    with vlib.file_lock(os.path.join(vlib.CACHE, "locks", pid)):
+        importlib.import_module("checks." + pid.lower()).run(sub, tier, seed)
     n = 0
     for sig, desc, path in sub.violations:
         if keep(sig):
